@@ -13,6 +13,8 @@ SKELETONS = [
     ("host", "http://a.", ".x.fr:8080/p"),
     ("ipv4", "http://192.168.0.", ":80/p"),
     ("ipv6", "http://[::1]:", "/p"),
+    ("ipv6-hex", "http://[2001:db8::", "]:80/p"),
+    ("ipv6-v4", "http://u@[::", ".2.3.4]/p"),
     ("localhost", "http://localhost", "/p?q"),
     ("port", "http://x.fr:", "/a"),
     ("query", "http://x.fr/a?", "#"),
@@ -23,7 +25,7 @@ SKELETONS = [
     ("whole", "", ""),
 ]
 BOUNDS = {
-    "quick": "16 URL skeletons (userinfo with / without password, IPv4, bracketed IPv6 with port, localhost, ports, empty path segments, trailing slash, empty and non-empty query / fragment, ':' and '@' in path and query) x every hole string without '|' of length 0..2 over all code points x suffix_aware in {F,T}",
+    "quick": "18 URL skeletons (userinfo with / without password, IPv4, bracketed IPv6 with port, localhost, ports, empty path segments, trailing slash, empty and non-empty query / fragment, ':' and '@' in path and query) x every hole string without '|' of length 0..2 over all code points x suffix_aware in {F,T}",
     "thorough": "holes of length 0..3 (4 for the path / query holes)",
 }
 STUBS = ["see C01; live SUFFIX_TRIE walked symbolically when suffix_aware (dict lookups with symbolic keys fork over the entries of matching length)"]
